@@ -162,7 +162,11 @@ PreReading == {"Prefixed", "FixedSized", "Transformed", "Restreamed", "NullTermi
 IsPrefixSeq(a, b) == Len(a) <= Len(b) /\ SubSeq(b, 1, Len(a)) = a
 C18Trunc(n, full, cut) ==
     LET j == Len(cut.data)
-        all == ChainAt(full.events, 1, j, <<>>, <<>>)
+        \* the members that cover offset j: read off the events the specification prescribes for the full parse (the recorded ones where the
+        \* program is outside the model), so that a name lost by the code everywhere -- in the events and in the path alike -- is still missed
+        mp == ParseCall(n, full.data, full.start, full.kw)
+        evs == IF ~IsOOM(mp) /\ mp.ok THEN mp.ev ELSE full.events
+        all == ChainAt(evs, 1, j, <<>>, <<>>)
         chain == SortByAt(SelectSeq(all, LAMBDA x : x.at # 0))
         inrel == \E i \in 1..Len(all) : all[i].at = 0          \* the cut lies inside a bit-level / transformed region
         names == <<"(parsing)">> \o [i \in 1..Len(chain) |-> chain[i].nm]
